@@ -312,6 +312,17 @@ func (u *Universe) Solve(o *Obligation, dir string, timeoutS int, thorough bool)
 			variants = append(variants, variant{solvers[macroSolver], fs, fmt.Sprintf("z3-new/macro/slice-tail%d", k)})
 		}
 	}
+	if u.retryLite {
+		// second-chance pass: only the z3 5.1 configurations on the full and the cone-of-influence sliced queries
+		// (eight processes: one round on this machine)
+		var keep []variant
+		for _, v := range variants {
+			if strings.HasPrefix(v.name, "z3-new") && !strings.Contains(v.name, "tail") && !strings.Contains(v.name, "macro") {
+				keep = append(keep, v)
+			}
+		}
+		variants = keep
+	}
 	type ans struct {
 		name, st, out string
 		ms            int64
